@@ -669,5 +669,5 @@ def describe(case):
 
 SUITES = [
     Suite("dispatch", gen_case, run_impl, HDR, coq_case, oracle, shrink, nontrivial,
-          {"quick": 2500, "thorough": 60000}, worker_init=worker_init, shard=250, describe=describe),
+          {"quick": 1500, "thorough": 40000}, worker_init=worker_init, shard=125, describe=describe),
 ]
